@@ -650,7 +650,8 @@ def run_property(ctx, pid: str, strict_multi: bool, n_scripted, n_evqe, enum_eve
     for i in range(n_evqe):   # every third one: the package-operator solver solving several problems in a row
         # i % 3 == 1 and some of the others: selection fitness = expectation value x species size and nothing else
         evqe(ctx, pid, sk.random_evqe_setup(ctx.rng, quick=ctx.quick, family="package" if i % 3 == 0 else None,
-                                            plain_fitness=True if i % 3 == 1 else None), glits, kept, strict_multi)
+                                            plain_fitness=True if i % 3 == 1 else None,
+                                            rich_assembly=(pid == "C05" and i % 3 == 2)), glits, kept, strict_multi)
     bad = core.model_mismatches(pid, IMPORTS, CHECKER[pid], glits, chunk=150)
     for i in bad[:5]:
         shown = None
@@ -703,6 +704,8 @@ def evqe(ctx, pid, setup, glits, kept, strict_multi):
         glits.append(g_case(case, obs))
         kept.append(replay)
     ctx.tally("evqe:" + setup.get("family", "evqe") + ":" + setup["evaluator"])
+    if setup["init"] in ("h0", "ry") and setup["aux"] in ("list", "dict"):
+        ctx.tally("evqe-assembly:noncommuting-init+aux-" + setup["aux"] + ":" + setup["evaluator"])
     if setup.get("penalty", 0.1) == 0 and (setup["tournament"] or setup.get("positive")):
         ctx.tally("evqe-plain-fitness:" + ("tournament" if setup["tournament"] else "roulette-positive"))
     ctx.tally(f"evqe-workers:{setup['workers']}")
